@@ -156,7 +156,8 @@ func genCase(t *rapid.T) Case {
 		n = 1
 	}
 	c := Case{Chars: rapid.IntRange(0, 3).Draw(t, "chars") == 0, Via: rapid.SampledFrom([]string{"printf", "sprintf"}).Draw(t, "via")}
-	lits := []string{"", "[", "]", " ", "%%", "x=", "é", "\n", "100%%|"}
+	// literal text, including %% directly followed by text that looks like the rest of a conversion
+	lits := []string{"", "[", "]", " ", "%%", "x=", "é", "\n", "100%%|", "%%g", "%%G=", "%%growth", "50%% 3g of ", "%%-8G|", "%%d", "%%5.2f", "%%%%", "%%s%%", "%%c", "%%.3e", "%%i", "%%+g ", "%%#x", "a%%*d"}
 	for i := 0; i < n; i++ {
 		c.Specs = append(c.Specs, genSpec(t))
 		c.Lits = append(c.Lits, h.Str(rapid.SampledFrom(lits).Draw(t, "lit")))
